@@ -217,6 +217,11 @@ def build(recipe):
         elif pat == "gap2":
             body = [I("LOAD_CONST", Constant("a"), line_number=1), I("LOAD_CONST", Constant("b", recipe.get("at", 3)), line_number=1)]
             bad = True
+        elif pat == "negative":      # positions {-1, 1}: the largest one fits, the smallest is outside the table
+            mkop = {"name": lambda v, o=None: I("LOAD_NAME", Name(v, o), line_number=1), "const": lambda v, o=None: I("LOAD_CONST", Constant(v, o), line_number=1),
+                    "var": lambda v, o=None: I("LOAD_FAST", Varname(v, o), line_number=1)}[recipe.get("table", "name")]
+            body = [mkop("a", recipe.get("at", -1)), mkop("b")]
+            bad = True
         elif pat == "collision":     # two different names forced into one slot
             body = [I("LOAD_NAME", Name("x", 0), line_number=1), I("LOAD_NAME", Name("y", 0), line_number=1)]
             bad = True
@@ -314,6 +319,9 @@ def c03_recipes(tier, seed):
         out.append({"kind": "overrides", "pattern": pat})
     for at in (1, 2, 255, 256, 70000):
         out.append({"kind": "overrides", "pattern": "gap", "at": at})
+    for table in ("name", "const", "var"):
+        for at in (-1, -2, -256):
+            out.append({"kind": "overrides", "pattern": "negative", "table": table, "at": at})
     return out
 
 
